@@ -1809,4 +1809,356 @@ def unsafeOps : List Op :=
 theorem C08_unsafe_breaks :
     (run Facts.code (init 0) unsafeOps).vols.all (fun v => v.used == occ v.slots) = false := by decide
 
+/-! ## no counter ever goes below zero -/
+
+/-- panics that are argument checks ("developer errors"), not counter underflows -/
+def DevError (why : String) : Prop :=
+  why = "maxSectors must be greater than 0" ∨ why = "maxSectors must be less than totalSectors" ∨ why = "index out of range"
+
+theorem grow_nopanic {s : State} (v n : Nat) {why : String} (hp : (grow s v n).2 = .panic why) : DevError why := by
+  simp only [grow] at hp
+  split at hp
+  · simp at hp; exact Or.inl hp.symm
+  split at hp
+  · simp at hp
+  split at hp <;> simp at hp
+
+theorem shrink_nopanic {s : State} (h : MetaOK s) (v n : Nat) {why : String} (hp : (shrink s v n).2 = .panic why) : DevError why := by
+  simp only [shrink] at hp
+  split at hp
+  · simp at hp; exact Or.inl hp.symm
+  split at hp
+  · simp at hp
+  rename_i vol hv
+  split at hp
+  · simp at hp
+  split at hp
+  · simp at hp; exact Or.inr (Or.inl hp.symm)
+  split at hp
+  · rename_i hlt
+    have := sumBy_le_of_mem (·.total) (findVol_some hv).1
+    have := h.core.mTotal
+    simp only at *
+    omega
+  · simp at hp
+
+theorem removeVolume_nopanic {s : State} (h : MetaOK s) (v : Nat) (force : Bool) {why : String}
+    (hp : (removeVolume s v force).2 = .panic why) : False := by
+  simp only [removeVolume] at hp
+  split at hp
+  · simp at hp
+  rename_i vol hv
+  have hm := (findVol_some hv).1
+  have hvo := h.core.vol vol hm
+  have h1 := sumBy_le_of_mem (·.used) hm
+  have h2 := sumBy_le_of_mem (·.total) hm
+  have := h.core.mPhys
+  have := h.core.mTotal
+  simp only [VolOK] at hvo
+  split at hp
+  · simp at hp
+  split at hp
+  · simp only at *; omega
+  split at hp
+  · simp only at *; omega
+  · simp at hp
+
+theorem finish_nopanic {s : State} (h : MetaOK s) (w : Nat) (ok : Bool) {why : String} (hp : (finish s w ok).2 = .panic why) : False := by
+  simp only [finish] at hp
+  split at hp
+  · simp at hp
+  rename_i p hpp
+  obtain ⟨hpm, _⟩ := findPending_spec hpp
+  obtain ⟨_, hphys, vol', hv', hused⟩ := core_clear h.core (h.pend p hpm)
+  split at hp
+  · simp at hp
+  rename_i vol hv
+  have : vol = vol' := by
+    have e : findVol p.v s.vols = some vol := hv
+    rw [hv'] at e; exact (Option.some.inj e).symm
+  subst this
+  split at hp
+  · split at hp <;> simp at hp
+  split at hp
+  · omega
+  split at hp
+  · simp only at *; omega
+  · simp at hp
+
+theorem revise1_nopanic {s : State} (h : MetaOK s) (c : Nat) (chs : List Change) {why : String}
+    (hp : (revise1 s c chs).2 = .panic why) : DevError why := by
+  simp only [revise1] at hp
+  split at hp
+  · simp at hp
+  rename_i con hc
+  split at hp
+  · simp at hp
+  · simp at hp; exact Or.inr (Or.inr hp.symm)
+  split at hp
+  · have := sumLen1_mem_le (findC1_mem hc)
+    have := h.mContract
+    omega
+  · simp at hp
+
+theorem revise2_nopanic {s : State} (h : MetaOK s) (c : Nat) (roots : List SectorId) {why : String}
+    (hp : (revise2 s c roots).2 = .panic why) : False := by
+  simp only [revise2] at hp
+  split at hp
+  · simp at hp
+  rename_i con hc
+  split at hp
+  · simp at hp
+  split at hp
+  · have := sumLen2_mem_le (findC2_mem hc)
+    have := h.mContract
+    omega
+  · simp at hp
+
+theorem expire1_nopanic {s : State} (f : Facts) (h : MetaOK s) (ht : Nat) {why : String} (hp : (expire1 f s ht).2 = .panic why) : False := by
+  simp only [expire1] at hp
+  split at hp
+  · have := sumLen1_filter_le (dead1 f ht) s.c1
+    have := h.mContract
+    omega
+  · simp at hp
+
+theorem expire2_nopanic {s : State} (f : Facts) (h : MetaOK s) (ht : Nat) {why : String} (hp : (expire2 f s ht).2 = .panic why) : False := by
+  simp only [expire2] at hp
+  split at hp
+  · have := sumLen2_filter_le (dead2 f ht) s.c2
+    have := h.mContract
+    omega
+  · simp at hp
+
+theorem expireTemp_nopanic {s : State} (h : MetaOK s) (ht : Nat) {why : String} (hp : (expireTemp s ht).2 = .panic why) : False := by
+  simp only [expireTemp] at hp
+  split at hp
+  · have : (s.temps.filter (deadT ht)).length ≤ s.temps.length := List.length_filter_le _ _
+    have := h.mTemp
+    omega
+  · simp at hp
+
+theorem prune_nopanic {s : State} (h : MetaOK s) {why : String} (hp : (prune s).2 = .panic why) : False := by
+  have c := h.core
+  have hle : ∀ v ∈ s.vols, prunedIn s v ≤ v.used := by
+    intro v hv
+    have := c.vol v hv
+    simp only [VolOK, prunedIn] at this ⊢
+    omega
+  simp only [prune] at hp
+  split at hp
+  · rename_i h1
+    obtain ⟨v, hv, hlt⟩ := List.any_eq_true.mp h1
+    have := hle v hv
+    simp at hlt; omega
+  split at hp
+  · have := sumBy_le_sumBy (prunedIn s) (·.used) s.vols hle
+    have := c.mPhys
+    omega
+  · simp at hp
+
+theorem removeSector_nopanic {s : State} (h : MetaOK s) (r : SectorId) (data : Bool) {why : String}
+    (hp : (removeSector s r data).2 = .panic why) : False := by
+  simp only [removeSector] at hp
+  split at hp
+  · simp at hp
+  split at hp
+  · simp at hp
+  rename_i v i hloc
+  have hh : holdsAt s.vols v i r := findLoc_spec h.core.ids hloc
+  obtain ⟨_, hphys, vol', hv', hused⟩ := core_clear h.core hh
+  split at hp
+  · simp at hp
+  rename_i vol hv
+  have : vol = vol' := by
+    have e : findVol v s.vols = some vol := hv
+    rw [hv'] at e; exact (Option.some.inj e).symm
+  subst this
+  split at hp
+  · omega
+  split at hp
+  · simp only at *; omega
+  · simp at hp
+
+theorem moveOne_m (s : State) (v i : Nat) (r : SectorId) (mv : Move) : (moveOne s v i r mv).1.m = s.m := by
+  simp only [moveOne]
+  split
+  · rfl
+  split
+  · rfl
+  split
+  · rfl
+  split <;> rfl
+
+theorem migrateGo_nopanic {v start : Nat} (moves : List Move) : ∀ {s : State} (cursor nOk nFail : Nat), MetaOK s →
+    (∀ p ∈ s.pending, p.v ≠ v) → ∀ {why : String}, (migrateGo s v start cursor nOk nFail moves).2 = .panic why → False := by
+  induction moves with
+  | nil =>
+    intro s cursor nOk nFail _ _ why hp
+    simp only [migrateGo] at hp
+    split at hp
+    · simp at hp
+    split at hp
+    · simp at hp
+    split at hp <;> simp at hp
+  | cons mv rest ih =>
+    intro s cursor nOk nFail h hs why hp
+    simp only [migrateGo] at hp
+    split at hp
+    · simp at hp
+    rename_i vol hv
+    split at hp
+    · simp at hp
+    rename_i i r hn
+    split at hp
+    · simp at hp
+    split at hp
+    · simp at hp
+    rename_i hvalid
+    obtain ⟨_, sl, hsl, hsec⟩ := nextOcc_spec hn
+    have hh : holdsAt s.vols v i r := ⟨sl, by simpa [slotAt, hv] using hsl, hsec⟩
+    have ht := validTo_slot (by simpa using hvalid)
+    have hm := moveOne_ok h mv hh ht hs
+    have hpd := moveOne_pending s v i r mv
+    have hmm := moveOne_m s v i r mv
+    obtain ⟨_, hphys, _⟩ := core_clear h.core hh
+    generalize hmo : moveOne s v i r mv = res at hm hpd hmm hp
+    obtain ⟨s', ok⟩ := res
+    simp only at hm hpd hmm hp
+    split at hp
+    · simp at hp
+    split at hp
+    · split at hp
+      · rename_i hz
+        rw [hmm] at hz; omega
+      · exact ih _ _ _ hm (by rw [hpd]; exact hs) hp
+    · exact ih _ _ _ hm (by rw [hpd]; exact hs) hp
+
+theorem migrate_nopanic {s : State} (h : MetaOK s) (v start : Nat) (moves : List Move) (hs : ∀ p ∈ s.pending, p.v ≠ v)
+    {why : String} (hp : (migrate s v start moves).2 = .panic why) : False :=
+  migrateGo_nopanic moves _ _ _ h hs hp
+
+theorem vmResize_nopanic {s : State} (h : MetaOK s) (v n : Nat) (moves : List Move) (hs : ∀ p ∈ s.pending, p.v ≠ v)
+    {why : String} (hp : (vmResize s v n moves).2 = .panic why) : DevError why := by
+  simp only [vmResize] at hp
+  split at hp
+  · simp at hp
+  rename_i vol hv
+  split at hp
+  · have h1 : MetaOK (if (!vol.readOnly) = true then setReadOnly s v true else s) := by
+      split
+      · exact setReadOnly_ok h v true
+      · exact h
+    have hp1 : (if (!vol.readOnly) = true then setReadOnly s v true else s).pending = s.pending := by split <;> rfl
+    generalize (if (!vol.readOnly) = true then setReadOnly s v true else s) = s1 at h1 hp1 hp
+    have h2 := migrate_ok h1 v n moves (by rw [hp1]; exact hs)
+    have h3 : ∀ why, (migrate s1 v n moves).2 = .panic why → False :=
+      fun why hx => migrate_nopanic h1 v n moves (by rw [hp1]; exact hs) hx
+    generalize migrate s1 v n moves = res at h2 h3 hp
+    obtain ⟨s2, r⟩ := res
+    simp only at h2 h3 hp
+    split at hp
+    · exact shrink_nopanic h2 v n hp
+    · simp at hp
+    · rename_i hne1 hne2
+      exact (h3 why hp).elim
+  · split at hp
+    · exact grow_nopanic v n hp
+    · simp at hp
+
+theorem vmRemove_nopanic {s : State} (h : MetaOK s) (v : Nat) (force : Bool) (moves : List Move) (hs : ∀ p ∈ s.pending, p.v ≠ v)
+    {why : String} (hp : (vmRemove s v force moves).2 = .panic why) : False := by
+  simp only [vmRemove] at hp
+  split at hp
+  · simp at hp
+  have h1 := setReadOnly_ok h v true
+  have h2 := migrate_ok h1 v 0 moves (by rw [setReadOnly_pending]; exact hs)
+  have h3 : ∀ why, (migrate (setReadOnly s v true) v 0 moves).2 = .panic why → False :=
+    fun why hx => migrate_nopanic h1 v 0 moves (by rw [setReadOnly_pending]; exact hs) hx
+  generalize migrate (setReadOnly s v true) v 0 moves = res at h2 h3 hp
+  obtain ⟨s2, r⟩ := res
+  simp only at h2 h3 hp
+  split at hp
+  · split at hp
+    · simp at hp
+    · exact removeVolume_nopanic h2 v force hp
+  · exact h3 why hp
+
+theorem vmAddVolume_nopanic {s : State} (id n : Nat) {why : String} (hp : (vmAddVolume s id n).2 = .panic why) : DevError why := by
+  simp only [vmAddVolume] at hp
+  split at hp
+  · simp at hp
+  have ha : ∀ why, (addVolume s id false).2 = .panic why → False := by
+    intro why hx
+    simp only [addVolume] at hx
+    split at hx <;> simp at hx
+  generalize addVolume s id false = res at ha hp
+  obtain ⟨s1, r⟩ := res
+  cases r <;> simp only at hp <;> first
+    | exact grow_nopanic id n hp
+    | exact (ha _ rfl).elim
+    | simp at hp
+
+/-- **C08, no underflow.** Under the invariant no operation makes the store panic with
+`negative stat value …` / `volume usage is negative`; the only panics left are argument checks. -/
+theorem C08_no_negative_stat (f : Facts) {s : State} (h : MetaOK s) (op : Op) (hs : Safe s op) {why : String}
+    (hp : (step f s op).2 = .panic why) : DevError why := by
+  cases op with
+  | addVolume id ro => simp only [step, addVolume] at hp; split at hp <;> simp at hp
+  | grow v n => exact grow_nopanic v n hp
+  | shrink v n => exact shrink_nopanic h v n hp
+  | removeVolume v force => exact (removeVolume_nopanic h v force hp).elim
+  | setReadOnly v b => simp [step] at hp
+  | setAvailable v b => simp [step] at hp
+  | reserve w r b ch =>
+    simp only [step, reserve] at hp
+    split at hp
+    · simp at hp
+    split at hp
+    · simp at hp
+    split at hp
+    · simp at hp
+    split at hp
+    · simp at hp
+    · split at hp <;> simp at hp
+  | finish w ok => exact (finish_nopanic h w ok hp).elim
+  | revise1 c chs => exact revise1_nopanic h c chs hp
+  | revise2 c roots => exact (revise2_nopanic h c roots hp).elim
+  | addTemp r exp => simp only [step, addTemp] at hp; split at hp <;> simp at hp
+  | addTemps l => simp only [step, addTemps] at hp; split at hp <;> simp at hp
+  | addC1 id wEnd => simp only [step, addC1] at hp; split at hp <;> simp at hp
+  | addC2 id expH => simp only [step, addC2] at hp; split at hp <;> simp at hp
+  | setStatus1 id st => simp [step] at hp
+  | setStatus2 id st => simp [step] at hp
+  | expire1 ht => exact (expire1_nopanic f h ht hp).elim
+  | expire2 ht => exact (expire2_nopanic f h ht hp).elim
+  | expireTemp ht => exact (expireTemp_nopanic h ht hp).elim
+  | tick => simp [step] at hp
+  | prune => exact (prune_nopanic h hp).elim
+  | removeSector r data => exact (removeSector_nopanic h r data hp).elim
+  | migrate v start moves => exact (migrate_nopanic h v start moves hs hp).elim
+  | read r =>
+    simp only [step, Hostd.Volumes.read] at hp
+    split at hp
+    · simp at hp
+    split at hp
+    · simp at hp
+    split at hp
+    · simp at hp
+    · split at hp <;> simp at hp
+  | newBuf c => simp [step] at hp
+  | mutate b c => simp only [step, mutate] at hp; split at hp <;> simp at hp
+  | sync => simp [step] at hp
+  | resizeCache n => simp [step] at hp
+  | crash lost => simp only [step, crash] at hp; split at hp <;> simp at hp
+  | restart =>
+    simp only [step, restart] at hp
+    split at hp
+    · simp at hp
+    · simp only [crash] at hp; split at hp <;> simp at hp
+  | vmAddVolume id n => exact vmAddVolume_nopanic id n hp
+  | vmResize v n moves => exact vmResize_nopanic h v n moves hs hp
+  | vmRemove v force moves => exact (vmRemove_nopanic h v force moves hs hp).elim
+
+
 end Hostd.Props.C08
